@@ -186,17 +186,20 @@ File genFile(Rng & r, bool valid, bool ugly) {
 struct Renderer {
     Rng & r; const File & f; Mut mut; bool plain;
     std::vector<std::string> lines;
+    bool idxMut() const { return mut.cls == "unknown_name" || mut.cls == "index_out_of_range" || (mut.cls == "trailing_garbage" && mut.arg % 2 == 0); }
     std::string sp(int lo = 1) { if (plain) return " "; return std::string((size_t)(lo + (r.coin(1, 4) ? r.below(3) : 0)), ' '); }
     std::string col() { if (plain) return " : "; switch (r.below(5)) { case 0: return ":"; case 1: return ": "; case 2: return " :"; case 3: return "  :  "; default: return " : "; } }
     std::string idx(const Sel & s, const std::vector<std::string> & names, size_t max, bool mutHere) {
         if (mutHere && mut.cls == "unknown_name") { static const char * u[] = {"zz9", "nosuch", "Q", "s99x", "star", "stale0", "stale0"}; return u[mut.arg % 7]; }
         if (mutHere && mut.cls == "index_out_of_range") return std::to_string(max + (size_t)(mut.arg % 2));
+        if (mutHere && mut.cls == "trailing_garbage") { static const char * g[] = {"x", "abc", ".5", "e", "\t1"}; return (s.all ? std::string("0") : std::to_string(s.i)) + g[mut.arg / 7 % 5]; }
         if (s.all) return "*";
         if (!names.empty() && r.coin(2, 3)) return names[s.i];
         return std::to_string(s.i);
     }
-    std::string vec(const std::vector<Val> & v, int delta) {
+    std::string vec(const std::vector<Val> & v, int delta, bool garbage = false) {
         std::string o; std::vector<Val> w = v;
+        if (garbage) { static const char * g[] = {"x", "abc", "\t0.5", ",", ";"}; w[r.below(w.size())].txt += g[mut.arg / 7 % 5]; }
         if (delta > 0) w.push_back(v[r.below(v.size())]);
         if (delta < 0 && w.size() > 1) w.pop_back();
         for (size_t i = 0; i < w.size(); ++i) { if (i) o += sp(); o += w[i].txt; }
@@ -208,36 +211,37 @@ struct Renderer {
         const size_t D1 = f.S, D3 = s.tbl == 'O' ? f.O : f.S;
         int which = m ? mut.arg / 2 % 3 : -1;       // which index position a name/range mutation hits
         std::string h(1, s.tbl);
-        h += col() + idx(s.a, f.an, f.A, m && which == 0 && (mut.cls == "unknown_name" || mut.cls == "index_out_of_range"));
+        h += col() + idx(s.a, f.an, f.A, m && which == 0 && idxMut());
         if (m && mut.cls == "bad_colon_count" && s.form == 3) { lines.push_back(h + col()); for (auto & row : s.rows) lines.push_back(vec(row, 0)); return; }
         if (s.form == 3) {
-            if (m && which != 0 && (mut.cls == "unknown_name" || mut.cls == "index_out_of_range")) h = std::string(1, s.tbl) + col() + idx(s.a, f.an, f.A, true);
+            if (m && which != 0 && idxMut()) h = std::string(1, s.tbl) + col() + idx(s.a, f.an, f.A, true);
             lines.push_back(h);
             for (size_t d = 0; d < s.rows.size(); ++d) {
                 if (m && mut.cls == "matrix_missing_row" && d + 1 == s.rows.size()) break;
                 int delta = (m && mut.cls == "vector_wrong_length" && d == (size_t)(mut.arg / 4) % s.rows.size()) ? ((mut.arg & 1) && D3 > 1 ? -1 : 1) : 0;
-                lines.push_back(vec(s.rows[d], delta));
+                lines.push_back(vec(s.rows[d], delta, m && mut.cls == "trailing_garbage" && mut.arg % 2 == 1 && d == (size_t)(mut.arg / 4) % s.rows.size()));
             }
             return;
         }
-        bool hit1 = m && (which == 1 || (which == 2 && s.form != 0)) && (mut.cls == "unknown_name" || mut.cls == "index_out_of_range");
+        bool hit1 = m && (which == 1 || (which == 2 && s.form != 0)) && idxMut();
         h += col() + idx(s.d1, d1n, D1, hit1);
         if (s.form == 0) {
-            bool hit3 = m && which == 2 && (mut.cls == "unknown_name" || mut.cls == "index_out_of_range");
+            bool hit3 = m && which == 2 && idxMut();
             h += col() + idx(s.d3, d3n, D3, hit3);
             if (s.tbl == 'R') h += col() + (r.coin(3, 4) ? "*" : "0");
             if (m && mut.cls == "bad_colon_count") h += col() + "0";
             if (!(m && mut.cls == "missing_value")) h += sp() + s.v.txt;
+            if (m && mut.cls == "trailing_garbage" && mut.arg % 2 == 1) { static const char * g[] = {"x", "abc", "\t0.5", ",", ";"}; h += g[mut.arg / 7 % 5]; }
             lines.push_back(h);
         } else if (s.form == 1) {
             int delta = (m && mut.cls == "row_wrong_length") ? ((mut.arg & 1) && D3 > 1 ? -1 : 1) : 0;
             if (m && mut.cls == "bad_colon_count") h += col() + "0" + col() + "0";
-            lines.push_back(h + sp() + vec(s.vs, delta));
+            lines.push_back(h + sp() + vec(s.vs, delta, m && mut.cls == "trailing_garbage" && mut.arg % 2 == 1));
         } else {
             int delta = (m && mut.cls == "vector_wrong_length") ? ((mut.arg & 1) && D3 > 1 ? -1 : 1) : 0;
             if (m && mut.cls == "bad_colon_count") h += col() + "0" + col() + "0";
             lines.push_back(h);
-            lines.push_back(vec(s.vs, delta));
+            lines.push_back(vec(s.vs, delta, m && mut.cls == "trailing_garbage" && mut.arg % 2 == 1));
         }
     }
     std::string decl(const char * kw, size_t n, const std::vector<std::string> & names) {
@@ -423,7 +427,7 @@ const char * CORNER = "# corner.MDP 3x3\n\nvalues: rewards\nstates: 4\nactions: 
 const char * EJS = "# ejs4.POMDP\n\nvalues: rewards\nstates: 3\nactions: 2\nobservations: 2\n\nT : 0\n0.1 0.1 0.8\n0.2 0.5 0.3\n0.7 0.1 0.2\n\nT : 1\n0.1 0.8 0.1\n0.7 0.1 0.2\n0.1 0.9 0.0\n\n"
     "O : 0\n0.7 0.3\n0.1 0.9\n0.4 0.6\n\nO : 1\n0.2 0.8\n0.4 0.6\n0.3 0.7\n\nR : 0 : 0 : * : * -1.0\nR : 0 : 1 : * : *  0.0\nR : 1 : 1 : * : * -1.0\n";
 
-const long NFIXED = 17;
+const long NFIXED = 18;
 
 void fixedCase(long idx) {
     switch (idx) {
@@ -436,7 +440,7 @@ void fixedCase(long idx) {
         // 4: discount nan (Model::setDiscount accepts NaN, DESIGN §12 #1)
         case 4: runText(false, "states: 1\nactions: 1\ndiscount: nan\nT: 0 : 0 : 0 1\n", REJ("invalid_discount")); break;
         // 5: a tab inside a vector line: tokens are split on ' ' only, stod stops at the tab
-        case 5: runText(false, "states: 2\nactions: 1\nT: 0\n0.5\t0.25 0.5\n1 0\n", ANY); break;
+        case 5: runText(false, "states: 2\nactions: 1\nT: 0\n0.5\t0.25 0.5\n1 0\n", REJ("trailing_garbage")); break;   // witness of C18-trailing-garbage
         case 6: runText(false, CORNER, ANY); break;
         case 7: runText(true, EJS, ANY); break;
         case 8: runText(false, EJS, ANY); break;             // MDP view of a POMDP file: O lines are ignored
@@ -454,6 +458,7 @@ void fixedCase(long idx) {
             runText(false, R.render(), [&](Line & L) { emitStmts(L, f); });
             break;
         }
+        case 16: runText(false, "states: 2\nactions: 1\nT: 0 : 1x : 0 1\nT: 0 : 0 : 0abc 1.0junk\n", REJ("trailing_garbage")); break;  // `1x` is index 1, `1.0junk` is 1.0
         default: runText(false, "states: 18446744073709551616\nactions: 1\nT: 0 : 0 : 0 1\n", ANY); break; // stoul out_of_range is swallowed: one state named "1844…"
     }
 }
@@ -482,7 +487,7 @@ void verif_case(Rng & rng, long idx, const std::string &) {
     } else if (stream < 8) {                           // targeted must-reject mutants
         File f = genFile(rng, true, ugly);
         static const std::vector<std::string> classes = {"missing_sizes", "row_wrong_length", "vector_wrong_length", "unknown_name", "index_out_of_range",
-                                                         "bad_colon_count", "missing_value", "matrix_missing_row", "invalid_probability"};
+                                                         "bad_colon_count", "missing_value", "matrix_missing_row", "invalid_probability", "trailing_garbage"};
         Mut m; m.cls = classes[(size_t)(idx / 13) % classes.size()]; m.arg = (int)rng.below(1000);
         // choose a statement the mutation applies to
         std::vector<long> cand;
